@@ -1,7 +1,6 @@
 package main
 
 import (
-	"strings"
 	"encoding/json"
 	"fmt"
 	"go/constant"
@@ -9,6 +8,7 @@ import (
 	"os/exec"
 	"path/filepath"
 	"sort"
+	"strings"
 
 	"golang.org/x/tools/go/ssa"
 )
@@ -150,7 +150,6 @@ func (u *Unit) catalogueMember(x Term, class string) Term {
 	}
 	return Or(alts...)
 }
-
 
 // textKeepingWrappers: fmt's %w wrapper, and the library's error types whose Error method carries the clause
 // message_includes_cause (proved on that method; used here across the dynamic call err.Error()).
